@@ -243,9 +243,15 @@ func Clone(v reflect.Value) reflect.Value {
 		}
 		return m
 	case reflect.Struct:
+		// (unexported fields are cloned as well: the source is made addressable first)
+		if !v.CanAddr() {
+			tmp := reflect.New(v.Type()).Elem()
+			tmp.Set(v)
+			v = tmp
+		}
 		for i := 0; i < v.NumField(); i++ {
-			if out.Field(i).CanSet() {
-				out.Field(i).Set(Clone(v.Field(i)))
+			if f := acc(out.Field(i)); f.CanSet() {
+				f.Set(Clone(acc(v.Field(i))))
 			}
 		}
 		return out
@@ -275,8 +281,8 @@ func Mutate(v reflect.Value) int {
 	switch v.Kind() {
 	case reflect.Struct:
 		for i := 0; i < v.NumField(); i++ {
-			if v.Field(i).CanSet() {
-				n += Mutate(v.Field(i))
+			if f := acc(v.Field(i)); f.CanSet() {
+				n += Mutate(f)
 			}
 		}
 	case reflect.Slice:
